@@ -15,7 +15,7 @@ ID = 'C18'
 LEVEL = 'exploration'
 RULE = ('Engine A: lattice of experiment frames with cooldown: 4 shapes x n_pre in {4,6,10} x n_test in {1,2,4} x cooldown in '
         '{1,2} x control swing in the test period in {0, 20, 80, 240} (so that the reference cumulative scale decreases) x '
-        'unassigned-period dates in {none, lead, gap, trail} x cost scenario in {fixed, variable} x metric in {response, cost} x '
+        'unassigned-period dates in {none, lead, gap, trail} x cost scenario in {fixed, variable, treatment-pre-cost-only (control never spends: slope-free cost regression)} x metric in {response, cost} x '
         'level in {0.6,0.8,0.9,0.95} x tails. Oracle: the call succeeds; lower <= estimate <= upper on every date for all three '
         'series; counterfactual + pointwise = observed treatment series; pre-period pointwise = reference OLS residuals; last '
         'cumulative row = incremental effect and the reference quantiles; series cover exactly the analysed dates. Known '
@@ -31,7 +31,7 @@ def cases(tier, seed):
     for sh, npre, ntest, ncool in itertools.product(frames.SHAPES[:4], (4, 6, 10), (1, 2, 4), (1, 2)):
         for swing in (0, 20, 80, 240):
             for extra in (None, 'lead', 'gap', 'trail'):
-                for scen in ('fixed', 'variable'):
+                for scen in ('fixed', 'variable', 'treatment-pre-cost-only'):
                     combos = [(m, l, t) for m in ('tbr_response', 'tbr_cost') for l in (0.6, 0.8, 0.9, 0.95) for t in (1, 2)]
                     if not thorough:
                         k = (npre + ntest + ncool + swing // 20 + (0 if extra is None else len(extra))) % 4
@@ -64,7 +64,10 @@ def run_case(case):
     tag = '%s %s level=%s tails=%d extra=%s swing=%s' % (metric, case['scen'], case['level'], case['tails'], case['extra'], spec['swing'])
     post = None
     mono = True
-    if not fixed_cost:
+    # control series constant in the pre-period (e.g. control never spends): the regression has no slope; the
+    # counterfactual is the pre-period mean of the treatment series (closed form below), quantile clauses are skipped
+    degenerate = (not fixed_cost) and float(np.ptp(np.asarray(xs[:npre], float))) == 0.0
+    if not fixed_cost and not degenerate:
         post = rstats.tbr_posterior(xs[:npre], ys[:npre], xs[npre:], ys[npre:])
         sc_ = np.concatenate([[0.0], post['scale']])
         mono = bool(np.all(np.diff(sc_) >= -1e-12 * sc_[1:].max()))
@@ -97,6 +100,13 @@ def run_case(case):
             add('fixed-cost-pointwise', '%s: pointwise cost effect != observed cost' % tag)
         if not math.isclose(float(np.asarray(cu['estimate'], float)[-1]), float(obs[npre:].sum()), rel_tol=1e-9, abs_tol=1e-9):
             add('fixed-cost-cumulative', '%s: last cumulative %r != total test cost %r' % (tag, float(np.asarray(cu['estimate'])[-1]), float(obs[npre:].sum())))
+    elif degenerate:
+        ypre = np.asarray(ys[:npre], float)
+        if not np.allclose(np.asarray(pw['estimate'], float)[:npre], ypre - ypre.mean(), rtol=1e-8, atol=1e-6):
+            add('pre-period-residuals', '%s: pre-period pointwise differences are not the residuals (control constant: y - mean(y))' % tag)
+        cum_ref = np.cumsum(np.asarray(ys[npre:], float) - ypre.mean())
+        if not np.allclose(np.asarray(cu['estimate'], float), cum_ref, rtol=1e-8, atol=1e-6):
+            add('cumulative-estimates', '%s: cumulative estimates differ from cumsum(y_t - mean(y_pre)) with a constant control series' % tag)
     else:
         res = post['fit']['res']
         if not np.allclose(np.asarray(pw['estimate'], float)[:npre], res, rtol=1e-8, atol=1e-6):
@@ -110,7 +120,7 @@ def run_case(case):
                 tag, last['lower'], last['estimate'], last['upper'], L + q * S, L, L - q * S))
         if not np.allclose(np.asarray(cu['estimate'], float), post['loc'], rtol=1e-8, atol=1e-6):
             add('cumulative-estimates', '%s: cumulative estimates differ from the closed form on some date' % tag)
-    return {'viol': viol, 'nontrivial': True, 'outcome': ['ok', mono, fixed_cost]}
+    return {'viol': viol, 'nontrivial': True, 'outcome': ['ok', mono, fixed_cost, degenerate]}
 
 
 def run(tier, seed, jobs):
